@@ -50,12 +50,16 @@ def gen_store(rnd, depth, size):
             mu = None
             for _ in range(5):
                 cand = pr.mutate(base, rnd)
-                if cand and cand[0].startswith('type'):
+                if cand and (cand[0].startswith('type') or cand[0] == 'enum-mixin'):
                     mu = cand
                     break
             if mu:
                 spec = mu[1]
         entries.append([spec, rnd.random() < 0.12, rnd.randrange(0, 100000), rnd.choice([0.0, 1.5, 0.000001, 3600.25, rnd.random() * 100])])
+    if rnd.random() < 0.4:
+        # a mixin enum member, its bare value and a same-valued member of another mixin enum, side by side
+        for spec in rnd.choice(pr.mixin_groups()):
+            entries.insert(rnd.randrange(len(entries) + 1), [spec, False, rnd.randrange(0, 100000), 1.5])
     return entries
 
 
@@ -73,7 +77,7 @@ def has_flagged(spec):
     t = spec[0]
     if t in ('dict', 'fdict'):
         for k, v in spec[1]:
-            if k[0] == 'k' and k[1] in ('_is_task', '_is_enum') and bool(pg.build(v) if v[0] not in ('task',) else True):
+            if k[0] == 'k' and k[1] in ('_is_task', '_is_enum') and (v[0] in ('task', 'enum') or bool(pg.build(v))):
                 return True
     return any(has_flagged(c) for c in pg.children(spec))
 
